@@ -124,7 +124,13 @@ def deep_same(a, b, rtol=0.0, atol=0.0, path=''):
         return True, worst, ''
     if isinstance(a, (str, bytes)) or isinstance(b, (str, bytes)):
         ok = (type(a) is type(b)) and a == b
-        return ok, 0.0 if ok else float('inf'), '' if ok else f'{path}: {a!r:.120} vs {b!r:.120}'
+        if ok:
+            return True, 0.0, ''
+        if isinstance(a, str) and isinstance(b, str):
+            i = next((k for k, (x, y) in enumerate(zip(a, b)) if x != y), min(len(a), len(b)))
+            lo = max(0, i - 30)
+            return False, float('inf'), f'{path}: str differs at {i}: ...{a[lo:i + 50]!r} vs ...{b[lo:i + 50]!r}'
+        return False, float('inf'), f'{path}: {a!r:.120} vs {b!r:.120}'
     if a is None or b is None:
         ok = a is None and b is None
         return ok, 0.0 if ok else float('inf'), '' if ok else f'{path}: None vs value'
@@ -183,14 +189,14 @@ def compare(case, live, fresh, what, mech, rtol=0.0, atol=0.0, devname=None):
     if live.ok and fresh.ok:
         a, b = canon(live.value), canon(fresh.value)
         ok, d, why = deep_same(a, b, rtol, atol)
-        case.dev(devname or what, d if d == d and d != float('inf') else 0.0)
         if ok:
+            case.dev(devname or what, d)      # deviations of *accepted* comparisons (tolerance audit)
             return case.check(True, what, mech)
         return case.check(False, what, mech, why=why[:400], dev=d)
     if (not live.ok) and (not fresh.ok):
         case.note('both_raise')
         same_type = live.etype == fresh.etype
-        m = dict(mech, exc=live.etype)
+        m = dict(mech, exc=live.etype, at=live.at)
         return case.check(same_type, what + ':exc_type', m,
                           live=live.etype, fresh=fresh.etype, live_msg=live.msg, fresh_msg=fresh.msg)
     if not live.ok:
@@ -200,7 +206,40 @@ def compare(case, live, fresh, what, mech, rtol=0.0, atol=0.0, devname=None):
     return case.check(False, what + ':fresh_raised_live_ok', m, msg=fresh.msg)
 
 
+def repr_fields(text):
+    """'Cls(a=1, b=<X(c=2, d=3)>, e=[1, 2])' -> {'__cls__': 'Cls', 'a': '1', 'b': '<X(c=2, d=3)>', 'e': '[1, 2]'}.
+    Falls back to {'__repr__': text} when the text does not have that shape."""
+    text = _ADDR.sub('', text)
+    i = text.find('(')
+    if i <= 0 or not text.endswith(')'):
+        return {'__repr__': text}
+    body = text[i + 1:-1]
+    parts, depth, cur = [], 0, ''
+    for ch in body:
+        if ch in '([<{':
+            depth += 1
+        elif ch in ')]>}':
+            depth -= 1
+        if ch == ',' and depth == 0:
+            parts.append(cur)
+            cur = ''
+        else:
+            cur += ch
+    if cur.strip():
+        parts.append(cur)
+    out = {'__cls__': text[:i]}
+    for p in parts:
+        if '=' not in p:
+            return {'__repr__': text}
+        k, v = p.split('=', 1)
+        out[k.strip()] = v.strip()
+    return out
+
+
 def selftest():
+    assert repr_fields('Cls(a=1, b=<X(c=2, d=3)>, e=[1, 2])') == {
+        '__cls__': 'Cls', 'a': '1', 'b': '<X(c=2, d=3)>', 'e': '[1, 2]'}
+    assert repr_fields('<obj at 0x7f00>') == {'__repr__': '<obj>'}
     """The comparer against facts that do not depend on photutils."""
     import astropy.units as u
     from astropy.table import QTable
